@@ -93,6 +93,13 @@ def check_slice_run(res, args, n):
         got = list(el.run(iter(xs)))
         ok = _same(got, expected)
         observed = [v[0] for v in got]
+        if ok:
+            # the same Slice object over a second flow (one value longer): list slicing again
+            ys = _flow(n + 1)
+            got2 = list(el.run(iter(ys)))
+            if not _same(got2, ys[slice(*args)]):
+                ok = False
+                observed = {"second_run_over_%d_values" % (n + 1): [v[0] for v in got2]}
     except Exception as e:  # any exception is a difference from list slicing
         ok = False
         observed = "raised " + type(e).__name__
@@ -174,8 +181,12 @@ def check_others(res, tier):
         xs = _flow(n)
         case = {"law": "reverse", "n": n}
         try:
-            got = list(lena.flow.Reverse().run(iter(xs)))
+            rev = lena.flow.Reverse()
+            got = list(rev.run(iter(xs)))
             ok = _same(got, list(reversed(xs)))
+            if ok:      # the same object over a second flow
+                ys = _flow(n + 1)
+                ok = _same(list(rev.run(iter(ys))), list(reversed(ys)))
             observed = [v[0] for v in got]
         except Exception as e:
             ok, observed = False, "raised " + type(e).__name__
@@ -216,6 +227,26 @@ def check_others(res, tier):
                 res.case(nontrivial=m > 0, outcome=("count", start, step, m))
                 if not ok:
                     res.violation(case, observed, expected, {"law": "countfrom"})
+    # one CountFrom object called twice, the first flow advanced before / while the second is read
+    for start, step in ((0, 1), (3, 2)):
+        for m1 in (0, 2):
+            case = {"law": "countfrom", "start": start, "step": step, "calls": 2, "first_advanced_by": m1}
+            expected = list(itertools.islice(itertools.count(start, step), 4))
+            try:
+                cf = lena.flow.CountFrom(start, step)
+                first = cf()
+                list(itertools.islice(first, m1))
+                second = cf()
+                got = []
+                for _ in range(4):
+                    got.append(next(second))
+                    next(first)
+                observed = got
+            except Exception as e:
+                observed = "raised " + type(e).__name__
+            res.case(nontrivial=True, outcome=("count2", start, step, m1))
+            if observed != expected:
+                res.violation(case, observed, expected, {"law": "countfrom", "calls": 2})
     try:
         got = list(itertools.islice(lena.flow.CountFrom()(), 3))
     except Exception as e:
@@ -236,7 +267,9 @@ def check_others(res, tier):
                 wins = _windows(xs, k)
                 case = {"law": "running-chunk-by", "size": k, "container": cname, "n": n}
                 try:
-                    got = list(lena.flow.RunningChunkBy(k, **kw).run(iter(xs)))
+                    rcb = lena.flow.RunningChunkBy(k, **kw)
+                    list(rcb.run(iter(_flow(n // 2))))      # an earlier run of the same object
+                    got = list(rcb.run(iter(xs)))
                     ok = len(got) == len(wins) and all(
                         len(g) == k and all(a is b for a, b in zip(g, w)) for g, w in zip(got, wins))
                     if ok and cname == "namedtuple":
@@ -310,5 +343,6 @@ LEVEL_TEXT = ("bounded exhaustive exploration: the property's whole stated domai
               "and every case executed on the real Slice / Reverse / Chain / CountFrom / RunningChunkBy and "
               "compared with Python's own slicing, reversed, itertools.chain/count and sliding windows")
 LEVEL_NOTE = ("holds for the enumerated domain only; identity of yielded objects is compared; "
-              "integral float steps and re-running one Slice object twice are outside the alphabet")
+              "integral float steps are outside the alphabet; every Slice / Reverse / RunningChunkBy object is also "
+              "run over a second flow and every CountFrom called twice with both flows alive")
 TECHNIQUE = "exhaustive enumeration of the stated input domain on the real code against a list-slicing reference"
